@@ -62,8 +62,24 @@ var statusCmd = &cobra.Command{
 		var deletedFiles []string
 		for _, entry := range client.Idx.Entries {
 			filePath := string(entry.Path)
-			if _, err := os.Stat(filePath); os.IsNotExist(err) {
+			// a tracked path that cannot be reached any more (e.g. its directory was replaced by a file) is deleted as well
+			if _, err := os.Stat(filePath); err != nil {
 				deletedFiles = append(deletedFiles, filePath)
+				continue
+			}
+			// a tracked file that is excluded by the ignore list is not found by the walk above, but it is still tracked
+			if client.Ignore.IsIncluded(filePath, client.Idx) {
+				data, err := os.ReadFile(filePath)
+				if err != nil {
+					return fmt.Errorf("fail to read %s: %w", filePath, err)
+				}
+				obj, err := object.NewObject(object.BlobObject, data)
+				if err != nil {
+					return fmt.Errorf("fail to get new object: %w", err)
+				}
+				if !entry.Hash.Compare(obj.Hash) {
+					modifiedFiles = append(modifiedFiles, filePath)
+				}
 			}
 		}
 
